@@ -592,7 +592,12 @@ def run_check(pid: str, tier: str, rules: list[t.Callable[[Ctx], None]], explana
         repo = Repo()
         ctx = Ctx(pid, tier, repo)
         for r in rules:
-            r(ctx)
+            try:
+                r(ctx)
+            except AnalysisError as e:
+                # one rule could not be evaluated: the others still run; a real finding takes precedence,
+                # otherwise the run fails as analysis-broken (exit 2), never as a pass
+                ctx.deferred.append(f"{getattr(r, '__name__', 'rule')}: {e}")
         rc = finish(ctx, t0, explanation, assumptions)
         if rc == 0 and ctx.deferred:
             for d in ctx.deferred:
